@@ -5,16 +5,16 @@ import os
 VERIF = os.path.dirname(os.path.dirname(os.path.abspath(__file__)))
 ALL = [f'C{i:02d}' for i in range(1, 20)]
 
-CLAIMED = {
-    'C18': {
-        'text': 'Lean 4 theorems, for every boolean list / every interval list: the code-faithful model of util.epochs equals '
-                'the maximal-run scan, and smooth/debounce equal their specifications; the model is tied to /repo by an '
-                'exhaustive differential run (all arrays up to length 12/16) of model vs. real code on every check.',
-        'note': 'Trusted: Lean kernel + propext/Classical.choice/Quot.sound; the Python correspondence harness; NumPy '
-                'diff/sort/flatnonzero semantics are modelled, pad=0 only.',
-        'technique': 'Lean 4 proof about a hand-written executable model + differential correspondence with the code',
-    },
-}
+def _load():
+    out = {}
+    d = os.path.join(VERIF, 'harness', 'manifest')
+    for f in sorted(os.listdir(d)):
+        if f.endswith('.json'):
+            out[f[:-5]] = json.load(open(os.path.join(d, f)))
+    return out
+
+
+CLAIMED = _load()   # one fragment per claimed property: harness/manifest/<ID>.json {category, text, note, technique}
 PENDING_REASON = 'check not built yet in this round (planned: Lean model + proof + correspondence, see DESIGN.md section 6)'
 
 
